@@ -366,11 +366,11 @@ func checkMultisigCase(c MultisigCase, o *vt.Obs) error {
 	}
 	o.Units(calls)
 	// nothing may be left behind, FAULT or not: the workers of every call have to end (bounded wait, no time oracle
-	// beyond "eventually within 5 s")
+	// beyond "eventually within 20 s")
 	restore()
 	for i := 0; runtime.NumGoroutine() > baseGoroutines; i++ {
-		if i > 500 {
-			return fmt.Errorf("%d goroutines before %d calls of CheckMultisigPar (%d of them FAULTs), %d five seconds after the last one returned: workers are left behind (keys %v, bad %v, sigs %s)",
+		if i > 2000 {
+			return fmt.Errorf("%d goroutines before %d calls of CheckMultisigPar (%d of them FAULTs), %d twenty seconds after the last one returned: workers are left behind (keys %v, bad %v, sigs %s)",
 				baseGoroutines, calls, faults, runtime.NumGoroutine(), c.Keys, c.BadKeys, fmtSigs(c.Sigs))
 		}
 		time.Sleep(10 * time.Millisecond)
